@@ -199,9 +199,42 @@ func deriveShape(r *simrt.Rand, a *Shape, l latticeCfg) *Shape {
 
 var boolOps = []string{"and", "or", "xor", "not", "div"}
 
+// genCurvy: open or closed path mixing arcs, quadratic and cubic Béziers (S-shaped cubics have
+// inflection points): the curve kinds take different code paths in SplitAt/Dash/Flatten/Stroke.
+func genCurvy(r *simrt.Rand, l latticeCfg) *Shape {
+	sh := &Shape{Family: "curvy"}
+	x, y := l.coord(r), l.coord(r)
+	sh.Segs = append(sh.Segs, Seg{C: "M", A: []float64{x, y}})
+	for i, n := 0, 1+r.Intn(3); i < n; i++ {
+		nx, ny := x+(1+float64(r.Intn(3)))*l.cell, y+float64(r.Intn(3)-1)*l.cell
+		switch r.Intn(4) {
+		case 0:
+			rad := (1 + float64(r.Intn(2))) * l.cell * 1.5
+			sh.Segs = append(sh.Segs, Seg{C: "A", A: []float64{rad, rad * (0.5 + 0.5*float64(r.Intn(2))), float64(r.Intn(4)) * 30, 0, float64(r.Intn(2)), nx, ny}})
+		case 1:
+			sh.Segs = append(sh.Segs, Seg{C: "Q", A: []float64{(x + nx) / 2, y + 2*l.cell, nx, ny}})
+		case 2: // cubic without inflection
+			sh.Segs = append(sh.Segs, Seg{C: "C", A: []float64{x + l.cell/2, y + 2*l.cell, nx - l.cell/2, ny + 2*l.cell, nx, ny}})
+		default: // S-shaped cubic
+			sh.Segs = append(sh.Segs, Seg{C: "C", A: []float64{x + l.cell, y + 2*l.cell, nx - l.cell, ny - 2*l.cell, nx, ny}})
+		}
+		x, y = nx, ny
+	}
+	if r.Bool(0.3) {
+		sh.Segs = append(sh.Segs, Seg{C: "Z"})
+	}
+	return sh
+}
+
 func genGeometryStep(r *simrt.Rand, l latticeCfg, tols []float64) Step {
+	curvyOr := func() *Shape {
+		if r.Bool(0.6) {
+			return genCurvy(r, l)
+		}
+		return genShape(r, l)
+	}
 	switch x := r.Intn(100); {
-	case x < 50:
+	case x < 40:
 		a := genShape(r, l)
 		if r.Bool(0.25) {
 			a = genOpenLines(r, l)
@@ -213,27 +246,31 @@ func genGeometryStep(r *simrt.Rand, l latticeCfg, tols []float64) Step {
 			b = genShape(r, l)
 		}
 		return Step{Op: boolOps[r.Intn(len(boolOps))], A: a, B: b, AsPaths: r.Bool(0.3)}
-	case x < 65:
+	case x < 52:
 		return Step{Op: "settle", A: genShape(r, l), FillRule: r.Intn(4), AsPaths: r.Bool(0.3)}
-	case x < 80:
-		return Step{Op: "stroke", A: genShape(r, l), W: []float64{0.3, 1, 2.5, l.cell}[r.Intn(4)], Cap: r.Intn(3), Join: r.Intn(6), Tol: tols[r.Intn(len(tols))]}
-	case x < 88:
+	case x < 65:
+		a := genShape(r, l)
+		if r.Bool(0.25) {
+			a = genCurvy(r, l)
+		}
+		return Step{Op: "stroke", A: a, W: []float64{0.3, 1, 2.5, l.cell}[r.Intn(4)], Cap: r.Intn(3), Join: r.Intn(6), Tol: tols[r.Intn(len(tols))]}
+	case x < 73:
 		w := []float64{0.3, 1, 2.5}[r.Intn(3)]
 		if r.Bool(0.5) {
 			w = -w
 		}
 		return Step{Op: "offset", A: genShape(r, l), W: w, Tol: tols[r.Intn(len(tols))]}
-	case x < 92:
-		return Step{Op: "flatten", A: genShape(r, l), Tol: tols[r.Intn(len(tols))]}
-	case x < 93:
+	case x < 79:
+		return Step{Op: "flatten", A: curvyOr(), Tol: tols[r.Intn(len(tols))]}
+	case x < 82:
 		return Step{Op: []string{"clip", "simplify", "gridsnap"}[r.Intn(3)], A: genShape(r, l), W: l.cell * (0.5 + float64(r.Intn(3))), Tol: []float64{0.1, 0.5, 2}[r.Intn(3)]}
 	case x < 96:
 		n := 1 + r.Intn(3)
 		d := make([]float64, n)
 		for i := range d {
-			d[i] = []float64{0.5, 1, 2, 3.5}[r.Intn(4)]
+			d[i] = []float64{0.5, 1, 2, 3.5}[r.Intn(4)] * l.cell / 2
 		}
-		return Step{Op: "dash", A: genShape(r, l), Dashes: d, Offset: float64(r.Intn(4)) - 1}
+		return Step{Op: "dash", A: curvyOr(), Dashes: d, Offset: float64(r.Intn(4)) - 1}
 	default:
 		return Step{Op: "tile", A: genShape(r, latticeCfg{n: 3, cell: l.cell / 2}), B: genRects(r, l), W: l.cell * 1.5}
 	}
